@@ -441,3 +441,52 @@ Theorem C05_escape_table_is_source :
 Proof. exact (@EscSrc.escape_table_is_source). Qed.
 Print Assumptions C05_escape_table_is_source.
 
+From Coq Require Import String.
+From SJ Require Import Base.Bytes Base.Utf8 Gen.Tables Model.Read Model.Str Model.StrScanAst Gen.StrScanTables Gen.StrTables Proofs.StrScanSrc.
+From SJ Require Model.ScanAst Model.StrAst Proofs.StrSrc Proofs.StrSrc2.
+Require Import Lia ZifyBool ZifyNat ZifyN.
+From SJ Require Import Proofs.StrScanSrc2.
+Theorem C05_string_scanning_is_source : forall (E : env) (sl : bytes) (s : st) (buf : bytes) (fuel mfuel : nat),
+  let len := length (rest s) in
+  let run := fun fn args => run_scan fuel E STR_PROG SCAN_PROG sl fn args s buf in
+  (* is_escape(ch, including_control_characters) *)
+  (forall b ctrl, (1 <= fuel)%nat -> run "is_escape" [VInt TU8 b; VBool ctrl] = Ok (RvBool (is_escape b ctrl), buf, s)) /\
+  (* as_str(read, slice) *)
+  (forall w, (1 <= fuel)%nat -> run "as_str" [VBytes w] = let* t := as_str_model E s w in Ok (RvStr t, buf, s)) /\
+  (* SliceRead (and StrRead, whose delegate is one): the cursor is the view of the slice; usize and u8 are what they are *)
+  (is_io E = false -> view_ok sl s -> word_ok sl -> bytes_ok sl ->
+     ((esc_span true (rest s) + 4 <= fuel)%nat ->
+        run "SliceRead::skip_to_escape_slow" [] = Ok (RvUnit, buf, moved sl (esc_span true (rest s)) s)) /\
+     (forall ctrl, (16 <= fuel)%nat ->
+        run "SliceRead::skip_to_escape" [VBool ctrl] = Ok (RvUnit, buf, moved sl (esc_span ctrl (rest s)) s)) /\
+     (forall v c, (2 * len + 42 <= fuel)%nat -> (len + 2 <= mfuel)%nat ->
+        run "SliceRead::parse_str_bytes" [VBool v; VClo c] = psb_post E c buf (slice_str_loop mfuel E v s)) /\
+     ((len + 41 <= fuel)%nat -> (len + 1 <= mfuel)%nat ->
+        run "SliceRead::ignore_str" [] = let* s' := slice_ignore_loop mfuel E s in Ok (RvUnit, buf, s')) /\
+     ((2 * len + 44 <= fuel)%nat -> (len + 2 <= mfuel)%nat ->
+        run "SliceRead::parse_str" [] = psb_post E CloAsStr buf (slice_str_loop mfuel E true s)) /\
+     ((2 * len + 44 <= fuel)%nat -> (len + 2 <= mfuel)%nat ->
+        run "SliceRead::parse_str_raw" [] = psb_post E CloBytes buf (slice_str_loop mfuel E false s)) /\
+     ((2 * len + 44 <= fuel)%nat -> (len + 2 <= mfuel)%nat ->
+        run "StrRead::parse_str" [] = psb_post E CloUnchecked buf (slice_str_loop mfuel E true s)) /\
+     ((2 * len + 46 <= fuel)%nat -> (len + 2 <= mfuel)%nat ->
+        run "StrRead::parse_str_raw" [] = psb_post E CloBytes buf (slice_str_loop mfuel E false s)) /\
+     ((len + 43 <= fuel)%nat -> (len + 1 <= mfuel)%nat ->
+        run "StrRead::ignore_str" [] = let* s' := slice_ignore_loop mfuel E s in Ok (RvUnit, buf, s'))) /\
+  (* IoRead: generic calls only, so for every reader kind *)
+  (forall v c, (2 * len + 31 <= fuel)%nat -> (len + 2 <= mfuel)%nat ->
+     run "IoRead::parse_str_bytes" [VBool v; VClo c] = io_post E c buf (io_str_loop mfuel E v s)) /\
+  ((len + 31 <= fuel)%nat -> (len + 1 <= mfuel)%nat ->
+     run "IoRead::ignore_str" [] = let* s' := io_ignore_loop mfuel E s in Ok (RvUnit, buf, s')) /\
+  ((2 * len + 33 <= fuel)%nat -> (len + 2 <= mfuel)%nat ->
+     run "IoRead::parse_str" [] = io_ref_post E CloAsStr buf (io_str_loop mfuel E true s)) /\
+  ((2 * len + 33 <= fuel)%nat -> (len + 2 <= mfuel)%nat ->
+     run "IoRead::parse_str_raw" [] = io_ref_post E CloBytes buf (io_str_loop mfuel E false s)) /\
+  (* Read::{parse_str, parse_str_raw, ignore_str} of the reader kind of E, scratch cleared: Model/Str.v parse_str / parse_str_raw / ignore_str *)
+  (slice_hyps E sl s -> (2 * len + 46 <= fuel)%nat ->
+     run_scan fuel E STR_PROG SCAN_PROG sl (reader_name E ++ "::parse_str")%string [] s [] = ref_of (Str.parse_str E s) /\
+     run_scan fuel E STR_PROG SCAN_PROG sl (reader_name E ++ "::parse_str_raw")%string [] s [] = ref_of (Str.parse_str_raw E s) /\
+     run (reader_name E ++ "::ignore_str")%string [] = let* s' := Str.ignore_str E s in Ok (RvUnit, buf, s')).
+Proof. exact (@StrScanSrc2.string_scanning_is_translated_source). Qed.
+Print Assumptions C05_string_scanning_is_source.
+
